@@ -2,6 +2,7 @@ import M3d.Model.Marching
 import M3d.Gen.McTable
 import M3d.Props.C01Bitmap
 import M3d.Lemmas.MsLift3
+import M3d.Lemmas.McLift3
 /-!
 # C01 — meshing always outputs a closed, consistently oriented manifold
 
@@ -114,5 +115,44 @@ exactly one incoming and one outgoing segment.  A pixel only puts vertices at it
 and only reads its 3×3 neighbourhood, so this covers every vertex of `Bitmap.Mesh` on every
 bitmap (pixels outside the image read as false). -/
 theorem bitmap_in_out_one : ∀ w, w < 65536 → windowOk w = true := bitmap_in_out_one_aux
+
+/-- The local facts of the regenerated 256-row marching-cubes table that the 3-D lift below
+consumes (`mcLocalOk`, kernel-decided): row 0 is empty; in every row every directed triangle side
+joins two distinct cube-edge midpoints, and a side lying in no face plane of the cell occurs exactly
+once, as does its reverse (256 rows); what a row draws in the plane of each of its six faces is what
+the representative row with the same four face-corner labels draws there (256 × 6); and for each
+axis and each of the 16 labellings of a shared lattice face, the lower cell's far-face count of
+`p → q` plus the upper cell's near-face count equals the same sum for `q → p` and is at most one
+(3 × 16 × 81 position pairs). -/
+theorem mc_local_ok : mcLocalOk mcTable = true := by decide +kernel
+
+/-- **Every edge of the marching-cubes mesh is shared by exactly two triangles that traverse it in
+opposite directions, on EVERY lattice** (first half of the 3-D statement; the local→global lift,
+mechanised in `Lemmas/McLift{,2,3}.lean`): for every lattice size and every labelling whose outer
+layer is outside, in the mesh assembled from the regenerated table the number of triangle sides
+running `U → V` equals the number running `V → U`, and is at most one, for every pair of points
+`U`, `V` (doubled lattice coordinates).  `mcMesh` is the function the driver runs and that the
+correspondence compares with `MarchingCubes` / `MarchingCubesFilter` triangle-for-triangle.  Proof:
+a cell contributes the row's local count when `U`, `V` both lie in its 3×3×3 box and nothing
+otherwise; per axis the cell coordinate is determined unless `U`, `V` share an even coordinate, so
+the triple sum over the lattice has one term (interior edge: cancels inside the cell), two terms
+(the two cells across a lattice face: cancel by `okFacePair` since both see the same four face
+labels; on the outer layer the face is all-outside and empty), or only zero terms (`U`, `V` on a
+common lattice line). -/
+theorem mc_edges_balanced_on_every_lattice (nx ny nz : Nat) (lab : Nat → Nat → Nat → Bool)
+    (hb : ∀ x y z, (x = 0 ∨ y = 0 ∨ z = 0 ∨ nx ≤ x ∨ ny ≤ y ∨ nz ≤ z) → lab x y z = false)
+    (U V : GV) :
+    ecnt (mcMesh mcTable nx ny nz lab) (U, V) = ecnt (mcMesh mcTable nx ny nz lab) (V, U) ∧
+    ecnt (mcMesh mcTable nx ny nz lab) (U, V) ≤ 1 :=
+  mc_edges_balanced mc_local_ok nx ny nz lab hb U V
+
+/-- Non-vacuity: a 2×2×2-cell lattice with only the centre point inside gives the 8-triangle
+octahedron; each of its 24 directed sides occurs once and its reverse occurs once. -/
+example :
+    let lab : Nat → Nat → Nat → Bool := fun x y z => x == 1 && y == 1 && z == 1
+    let m := mcMesh mcTable 2 2 2 lab
+    m.length = 8 ∧ (m.flatMap gsides).length = 24 ∧
+      ((m.flatMap gsides).all fun d => ecnt m d == 1 && ecnt m (d.2, d.1) == 1) = true := by
+  decide
 
 end M3d.C01
